@@ -1,1 +1,6 @@
 import MpModel.Core
+import MpModel.Hash
+import MpModel.DrvHash
+import MpModel.Complex
+import MpModel.Interval
+import MpModel.DrvCplxIv
